@@ -16,8 +16,10 @@ unknown replacement type, max-elements 0).  The general random schemas of schema
               of the dump has nerr > 0 or naugments > 0
   (c) clean   model says error <=> implementation says error (a lost error shows up as ok-vs-err); part of (a), counted
               separately
-  (d) side    the two computable hypotheses of theorem C04_T1_choice_clause_partial (`final_applied = 0`,
-              `heights_okb = true`; extracted from coq/Spec/C04.v, command c04side) hold on every case the model calls clean
+  (d) side    the computable side condition of theorem C04_T1_choice_clause_side_condition (`final_applied = 0`: the
+              reporting pass applies no augment; a theorem, C04_T1_reporting_pass_idle, for distinct module names and
+              orders that visit every module; extracted from coq/Spec/C04.v, command c04side) holds on every case the
+              model calls clean
 """
 import json
 import random
@@ -659,15 +661,15 @@ def run(res, tier, seed, proof):
             stats["flags"] += 1
             violation("clean result carries recorded errors or pending augments: %s" % "; ".join(bad[:3]),
                       dict(rep, kind="flags", flags=bad[:10]))
-    # side conditions of theorem C04_T1_choice_clause_partial, evaluated by the extracted specification on every case
-    # the model calls clean: the reporting pass applied nothing, no depth measurement was cut off
+    # side condition of theorem C04_T1_choice_clause_side_condition, evaluated by the extracted specification on every
+    # case the model calls clean: the reporting pass applied nothing
     side_idx = [i for i, m in enumerate(ml) if m.startswith("ok")]
     side = lib.run_ml(["c04side" + ml_lines[i][len("resolve"):] for i in side_idx])
     stats["side_conditions_checked"] = len(side_idx)
     for i, o in zip(side_idx, side):
-        if o != "applied=0 heights=ok":
+        if o != "applied=0":
             stats["side_conditions_failed"] = stats.get("side_conditions_failed", 0) + 1
-            violation("a side condition of C04_T1_choice_clause_partial does not hold on a clean case: %s" % o,
+            violation("the side condition of C04_T1_choice_clause_side_condition does not hold on a clean case: %s" % o,
                       dict(kind="side-condition", ml_case=ml_lines[i], go_case=go_lines[i], features=cases[i][2], obs=o,
                            text="\n".join(sg.render_module(x) for x in cases[i][0])))
     # ---- family "revisions" (implementation only)
